@@ -1,5 +1,6 @@
 import GambitV.Model.Cli
 import Driver.Proto
+import Driver.PyGenCmp
 namespace Driver.C16
 open GambitV Driver
 
@@ -26,7 +27,11 @@ def handle : List String → Option String
     if expected == real then pure "ok" else
     pure s!"FAIL expected csv {String.ofList expected |>.quote} got {String.ofList real |>.quote}"
   | ["c16.label", path, real] => do
-    pure (expect (String.ofList (fileLabel (← strOfHex path))) (String.ofList (← strOfHex real)))
+    let path ← strOfHex path
+    let real ← strOfHex real
+    let r := expect (String.ofList (fileLabel path)) (String.ofList real)
+    if r != "ok" then pure r else
+    pure ((PyGen.fileId path (String.ofList real)).getD "ok")
   | ["c16.csvrt", lt, rowsHex, textHex, pyRowsHex] => do
     -- writer model vs real text; reader model on the real text vs CPython's reader
     let lt ← strOfHex lt
